@@ -403,6 +403,7 @@ struct C19 : Scenario {
 			return p;
 		}
 		int nf = rng.chance(1, 2) ? 0 : 1 + (int) rng.below(3);
+		if (rng.chance(1, 30)) { p.argv.push_back("no-member-is-called-this*"); p.sets("zero_rows", "1"); return p; }   // a listing without rows
 		if (dup_names) {
 			// plain names only, some of them of the duplicated members
 			nf = 1 + (int) rng.below(3);
@@ -498,6 +499,7 @@ struct C19 : Scenario {
 		if (p.argv.size() == 2) count("kind.one_argument_form");
 		if (p.gets("dupnames") == "1") count("kind.duplicate_names_with_name_arguments");
 		if (p.gets("allcaps") == "1") count("kind.name_without_lower_case_letter");
+		if (p.gets("zero_rows") == "1") count("kind.listing_without_rows");
 		count("probe.clock_reads", g_sim.clock_reads);
 		count("probe.rows", rows);
 		res.trace = finish_trace();
